@@ -89,7 +89,7 @@ void br_hmac_update(br_hmac_context *ctx, const void *data, size_t len)
 }
 static void toy_fin(uint64_t a, size_t n, unsigned char *out)
 {
-	for (size_t i = 0; i < n; i++) { a = toy_mix(a, 0xA5); out[i] = (unsigned char)(a >> 24); }
+	for (size_t i = 0; i < n; i++) { a = toy_mix(a, 0xA5); out[i] = (unsigned char)((a >> 32) ^ (a >> 45) ^ a ^ (a >> 8)); }
 }
 size_t br_hmac_out(const br_hmac_context *ctx, void *out)
 {
